@@ -113,7 +113,7 @@ MD = [0x007, 0x038, 0x1c0, 0xe00, 0x7000, 0x10000]
 CHECKS['C04'] = dict(
     title="dispatch reaches exactly the dispatched event's listeners, arguments intact",
     level='exploration',
-    rule='15 dispatcher configurations (keys: int, enum class, std::string, OrdKey(<)->std::map, HashKey(hash,==)->unordered_map with 4 buckets; prototypes by value / const& / & ; '
+    rule='16 dispatcher configurations (one with two custom mixins: by-value parameters - must not consume what the listeners get - and by-reference parameters that change an argument - must run exactly once and be seen by the listeners; keys: int, enum class, std::string, OrdKey(<)->std::map, HashKey(hash,==)->unordered_map with 4 buckets; prototypes by value / const& / & ; '
          'include- and exclude-event forms; getEvent policies reading a field, a by-value movable argument (taken by const& and BY VALUE) and a non-identity policy in the exclude-event form; user map; custom Callback; 3 threading policies) x seeded histories of '
          'append/prepend/insert/remove/hasAnyListener/ownsHandle/forEach/forEachIf per key over 5 keys (differing only in case/length, empty) interleaved with dispatches whose arguments are '
          'lvalues, const lvalues and temporaries; listeners consume whatever they receive as rvalues; every listener call is checked (which listener, order, argument fingerprints) online; '
@@ -126,13 +126,13 @@ CHECKS['C04'] = dict(
     level_note='Trusted: model, generator; two compilers sample the unspecified-evaluation-order dimension.',
 )
 
-MQ = [0x03, 0x0c, 0x30, 0x40, 0x300]
+MQ = [0x03, 0x0c, 0x30, 0x40, 0x700]
 CHECKS['C05'] = dict(
     title='EventQueue consumes every queued event exactly once, in FIFO order',
     level='exploration',
     rule='seeded single-threaded histories (50-200 ops) of enqueue/process/processOne/processIf/processUntil/peekEvent/takeEvent/dispatch(QueuedEvent)/'
-         'clearEvents/emptyQueue/waitFor(0)/listener changes, DisableQueueNotify objects created and destroyed in any order (they must change nothing but waitFor), with operations issued from inside listeners and predicates (depth<=2), 9 queue configurations '
-         '(int/std::string keys, by-value/by-reference/move-only payloads, include/exclude-event forms, getEvent policies incl. non-identity in the exclude form and by-value parameter with temporaries, ordered lists); the model '
+         'clearEvents/emptyQueue/waitFor(0)/listener changes, DisableQueueNotify objects created and destroyed in any order (they must change nothing but waitFor), with operations issued from inside listeners and predicates (depth<=2), 10 queue configurations '
+         '(int/std::string keys, by-value/by-reference/move-only payloads, include/exclude-event forms, getEvent policies incl. non-identity in the exclude form and by-value parameter with temporaries, ordered lists incl. a QueueList policy template with a defaulted second parameter, a payload type with alignof 16 whose address is checked wherever it is handed out); the model '
          'predicts the next callback (listener, predicate or return) and every real callback is compared with it; per-event state machine and payload '
          'ledger; argument types whose copy/move throws are inputs too: the queue families of the C09 fault enumeration check that an event whose enqueue failed is not in the queue and that no '
          'other event is lost, duplicated or destroyed twice; non-trivial = >=1 processing call with events and (>=1 re-queued event or >=1 nested operation); distinct = trace hash',
@@ -299,7 +299,8 @@ CHECKS['C14'] = dict(
     rule='9 configurations (HeterCallbackList, HeterEventDispatcher exclude-/include-event, HeterEventQueue exclude-/include-event with int and std::string keys; 7 prototype kinds with non-trivial payloads of '
          'different sizes in 3 listing orders; single and multi threading) x seeded histories of listener management, invocation/dispatch/enqueue with 16 argument shapes (lvalues, temporaries, convertible '
          'types), process/processOne/processIf with 11 predicates (one per prototype, several callable with 2,3 or all prototypes)/clearEvents, long enough to recycle queue slots across payload kinds; the '
-         'expected prototype is computed by an independent std::is_invocable fold; every listener and predicate call is checked online; payload ledger; non-trivial: queues - >=3 prototypes enqueued, a '
+         'expected prototype is computed by an independent std::is_invocable fold; every listener and predicate call is checked online; a processIf call must show its predicate every event that was queued when it began, '
+         'prototype by prototype in list order up to and including the first prototype of which it accepted one (a call that returns false has examined everything); the large payload type asks for 16-byte alignment and its address is checked wherever it is handed out; payload ledger; non-trivial: queues - >=3 prototypes enqueued, a '
          'processIf over own and foreign events, a slot recycled to another kind, >=1 listener call; lists/dispatchers - listeners of >=3 prototypes, a callable accepted by several prototypes, a successful '
          'remove, >=1 call; distinct = trace hash + configuration',
     jobs=JS('drv_heter', 'asan17', 'all', 36000, 900000, MH, shards=2, shards_thorough=4) + JS('drv_heter', 'clang-asan17', 'pif', 18000, 360000, MH, seed_offset=1, shards=2, shards_thorough=4),
@@ -442,7 +443,7 @@ CHECKS['C20'] = dict(
     level='exploration',
     rule='policy families: the SAME generated program (C01/C02/C10 list programs incl. copy/move/swap and counter wrap; C04/C10 dispatcher programs; C05/C10 queue programs) is run under every member of a family '
          'that differs only in policies - lists: {std::mutex+std::function, SingleThreading, SpinLock, custom callback+Single, custom callback+SpinLock}; dispatchers: {default unordered_map, SingleThreading, '
-         'std::map, user map(std::greater)+Single, IncludeEvent+SpinLock, custom callback}; queues: {default, Single, SpinLock, std::map+custom callback, IncludeEvent+Single} - each member checked against the model '
+         'std::map, user map(std::greater)+Single, IncludeEvent+SpinLock, custom callback}; queues (argument type with alignof 16: misplaced storage works at -O0 and faults at -O2): {default, Single, SpinLock, std::map+custom callback, IncludeEvent+Single} - each member checked against the model '
          'in-process and the observable traces (operations, results, calls with arguments) compared by hash; a second dispatcher family has a by-value std::string key in the prototype (the shape on which unspecified argument evaluation order shows); build matrix: g++ 12 / clang++ 14 x -std=c++11/14/17/20 x -O0/-O2 (4 builds quick, 16 thorough), same '
          'seeds, per-driver trace accumulators compared across builds; pool storage pre-filled with 0x00/0xFF/0xA5/0x5C/random before construction, plus a memcheck run with the storage left undefined; '
          'evaluations = programs x family members x builds; distinct = trace hash',
